@@ -2,7 +2,13 @@
 
 Streams (DESIGN.md 3 C19, docs/C19.md):
   codec      random Python values (pval grammar) -> serialize_value / deserialize_value, directly and through
-             JSON text, model (Model/Persist.v, unit 170) vs implementation, incl. refusals
+             JSON text, model (Model/Persist.v, unit 170) vs implementation, incl. refusals: what cannot be reloaded must be
+             refused when saving (ValueError), by the model and by the code
+  unrepresentable  values outside the grammar of the model (defaultdict, OrderedDict, Counter, range, deque, bytes, generators,
+             dictionary views, namedtuples, partial objects, bound methods, lambdas, inner functions, callable objects, objects
+             whose to_dict names another / no loadable class or parameters the constructor does not take, dictionaries that look
+             like a typed value / class / callable) placed anywhere inside lists, tuples, dictionaries, frozensets and systems:
+             persist.to_dict must raise ValueError
   json       mutated serialisations -> deserialize_value / from_dict, model (unit 171) vs implementation
   classes    every votelib class carrying to_dict, default + random constructor arguments to depth 4:
              to_dict equality after from_dict(json.loads(json.dumps(to_dict(x)))) and behaviour equality
@@ -30,7 +36,7 @@ from props import c19_stv, sigcheck
 ID = 'C19'
 LEVEL = 'proof'
 U0 = BLOCK['C19']
-TIE = {'persist.serialize_value / deserialize_value / deserialize_typed / deserialize_class / from_dict': 'correspondence (units 170, 171)',
+TIE = {'persist.serialize_value (repaired, names resolved at save time) / deserialize_value / deserialize_typed / deserialize_class / from_dict': 'correspondence (units 170, 171)',
        'io.blt dump_lines / load_lines (token level)': 'correspondence (units 172, 173)',
        'io.stv dump_lines / dumps / load_lines / loads (character level, Model/StvFile.v)': 'correspondence (units 174, 175; closed tables unit 176 checked exhaustively over all code points)',
        'to_dict of the votelib classes': 'translator (tools/py2v.py part 5: Gen/Signatures.v, the constructor table read from the source) + '
@@ -39,7 +45,9 @@ TIE = {'persist.serialize_value / deserialize_value / deserialize_typed / deseri
                                          '(signatures stream: to_dict kind and keys, constructor parameters, identity of stored arguments)'}
 RULE = ('corpus; codec: random values of the pval grammar to depth 4 (atoms, Fraction, Decimal incl. exponents and specials, tuple, frozenset, '
         'list, set, str-keyed and typed dicts incl. reserved keys, objects of three harness classes incl. an unloadable one, resolvable and '
-        'unresolvable callables, opaque objects) saved and reloaded directly and through JSON text, compared with the model; json: mutated '
+        'unresolvable callables, opaque objects) saved and reloaded directly and through JSON text, compared with the model (a value that is not '
+        'representable must be refused by both); unrepresentable: 45 kinds of values outside the grammar under 0-3 random wrappers (list, tuple, '
+        'str- / int-keyed dict, dict key, frozenset, harness object, votelib evaluator), ValueError expected; json: mutated '
         'serialisations; classes: every class with to_dict found by introspection, default construction and annotation-driven random '
         'arguments to depth 4, to_dict equality and equality of outcomes / exception classes on a panel of 14 inputs of all vote types; '
         'blt/stv: random elections (1..7 candidates as str or Person, names with initials, punctuation, duplicate initials, digits, '
@@ -58,7 +66,10 @@ PARTIAL = ['STV: Decimal multipliers are an oracle of the model (Decimal(str) is
            'per-class premise "the constructor stores its parameters unchanged": read from the source and proved for the classes with class_ok '
            '(Props/GenTie_Signatures.v); for the listed exception classes (normalising constructors, hand-written to_dict, serialize_params, sites of known '
            'findings) it is tested by the classes stream, not proved',
-           'C19_rejects_full_statement (every non-reloadable value is refused when saving): refuted, see known findings']
+           'persist: values outside the grammar of Model/Persist.v (subclasses of dict / list, other iterables, callable objects, classes as values) '
+           'are refused by the repaired code; that is tested (unrepresentable stream), the theorems speak about the grammar',
+           'the premise "an object is of the class its dictionary names" (class_exists of the environment) is the identity test of the code '
+           '(get_object(name) is type(value)); a factory function named by a function\'s to_dict (factory_serialization) is trusted to rebuild it']
 TRUSTED = ['CPython json, decimal (Decimal(str(d)) == d, str canonical) and fractions modules',
            'tools/py2v.py part 5: the reading rules of class bodies (what counts as a verbatim store of a constructor parameter, how to_dict keys are '
            'resolved); tied to the interpreter on every run by the signatures stream (harness/props/sigcheck.py)',
@@ -73,8 +84,8 @@ EXTRA_PROOF_FILES = []
 GEN_TIES = {'Signatures': 'Props/GenTie_Signatures.v'}
 # what this check treats specially, per class: the sites of the recorded findings.  The exception list of Props/GenTie_Signatures.v
 # must name exactly these under known:<id> (sigcheck / signature_exceptions below)
-SPECIAL_CLASSES = {'C19-closures': ['votelib.evaluate.openlist.ThresholdOpenList'],
-                   'C19-rank-defaultdict': ['votelib.vote.RankedVoteValidator', 'votelib.vote.EnumScoreVoteValidator', 'votelib.vote.RangeVoteValidator']}
+# (none at present: C19-closures and C19-rank-defaultdict are repaired, their classes are ordinary exceptions of the table)
+SPECIAL_CLASSES = {}
 
 E = common.E
 E_ATTR = 15
@@ -517,7 +528,8 @@ def codec_cases(rng, count):
 
 
 def codec_model_line(c):
-    return '%d (%s %s)' % (U0 + 0, env_wire(tree_strings(c['tree'], [])), to_wire(c['tree']))
+    # flag 1: the model of the tree before fixes/C19-persist-rejects.diff (serialize_value_pinned)
+    return '%d (%d %s %s)' % (U0 + 0, 1 if c.get('pinned') else 0, env_wire(tree_strings(c['tree'], [])), to_wire(c['tree']))
 
 
 def _table_names(key):
@@ -567,7 +579,7 @@ def codec_canon(c, wire):
     v = common.parse_sx(wire)
     if v[0] != 0:
         return ('refused', v[1])
-    j, d1, d2, _rep, d3 = v[1]
+    j, d1, d2, _rep, d3 = v[1][:5]
     out = [canon_j(j)]
     for d in (d1, d2, d3):
         cd = canon_d(d)
@@ -602,6 +614,9 @@ def codec_spec(c, io, mo):
     if m[0] != 0:
         return None                       # refused by both: the property's second clause holds
     rep = m[1][3] == 1
+    if len(m[1]) >= 7 and m[1][6] != 1:
+        c['_unmodelled'] = True           # the tree is no well-formed encoding (wf_value false): the theorems do not speak about it
+        return None
     got1, got2 = canon_d(v[1][1]), canon_d(v[1][2])
     if rep:
         if got1 != want or got2 != want:
@@ -623,6 +638,174 @@ def codec_known(c, io, mo):
 
 def codec_nontrivial(c):
     return tree_depth(c['tree']) >= 1
+
+
+# ------------------------------------------------------------------------------------------------ unrepresentable stream
+class _Liar:
+    """to_dict names another (loadable) class"""
+    def to_dict(self):
+        return {'class': __name__ + '.Box', 'a': 1}
+
+
+class _Extra:
+    """to_dict emits a parameter the constructor does not take"""
+    def __init__(self, a=None):
+        self.a = a
+
+    def to_dict(self):
+        return {'class': __name__ + '._Extra', 'a': 1, 'zzz': 2}
+
+
+class _Required:
+    """to_dict leaves out a required parameter"""
+    def __init__(self, a, b):
+        self.a, self.b = a, b
+
+    def to_dict(self):
+        return {'class': __name__ + '._Required', 'a': 1}
+
+
+class _NoName:
+    """to_dict names something that is no identifier path"""
+    def to_dict(self):
+        return {'class': 'not an identifier', 'a': 1}
+
+
+class _Callable:
+    def __call__(self, *a):
+        return 0
+
+
+def _shadowing_function():
+    """an inner function whose module.name is that of ANOTHER (module-level) function"""
+    def setup():
+        return None
+    return setup
+
+
+def _shadowing_object():
+    """an object of a local class whose module.name is that of ANOTHER (module-level, loadable) class"""
+    class Box:
+        def __init__(self, a=None):
+            self.a = a
+    Box.__qualname__ = 'Box'
+    return _decorate(Box)(a=1)
+
+
+def _unrep_kinds():
+    """kind -> (constructor, hashable).  Every value is one that deserialize_value cannot give back: saving must raise ValueError."""
+    import functools
+    R = setup()
+    NT = collections.namedtuple('NT', 'x y')
+    import votelib.component.quota as Q
+    return {
+        'set': (lambda: {1, 2}, False), 'empty-set': (lambda: set(), False), 'set-of-tuples': (lambda: {(1, 2), (3,)}, False),
+        'defaultdict': (lambda: collections.defaultdict(int, {1: 2}), False),
+        'defaultdict-str': (lambda: collections.defaultdict(list, a=[1]), False),
+        'defaultdict-empty': (lambda: collections.defaultdict(lambda: 0), False),
+        'ordereddict': (lambda: collections.OrderedDict(a=1, b=2), False), 'counter': (lambda: collections.Counter('aab'), False),
+        'range': (lambda: range(3), True), 'deque': (lambda: collections.deque([1, 2]), False), 'bytes': (lambda: b'ab', True),
+        'bytearray': (lambda: bytearray(b'ab'), False), 'generator': (lambda: (x for x in [1, 2]), True), 'map': (lambda: map(abs, [1]), True),
+        'dict-keys': (lambda: {'a': 1}.keys(), False), 'dict-values': (lambda: {'a': 1}.values(), False), 'dict-items': (lambda: {'a': 1}.items(), False),
+        'namedtuple': (lambda: NT(1, 2), True), 'list-subclass': (lambda: type('L', (list,), {})([1, 2]), False),
+        'dict-subclass': (lambda: type('D', (dict,), {})(a=1), False),
+        'lambda': (lambda: R['lam'], True), 'closure': (lambda: R['closure'], True), 'partial': (lambda: functools.partial(max, 1), True),
+        'bound-method': (lambda: 'abc'.upper, True), 'method': (lambda: Fraction(1, 2).limit_denominator, True),
+        'callable-object': (lambda: _Callable(), True), 'quota-constant': (lambda: Q.constant(5), True),
+        'shadowing-function': (_shadowing_function, True), 'shadowing-class': (_shadowing_object, True),
+        'complex': (lambda: 1j, True), 'object': (lambda: object(), True), 'module': (lambda: math, True),
+        'hidden-class': (lambda: R['hidden'][1](a=1), True), 'liar': (lambda: _Liar(), True), 'extra-param': (lambda: _Extra(), True),
+        'required-param': (lambda: _Required(1, 2), True), 'no-class-name': (lambda: _NoName(), True),
+        'type-param': (lambda: Box(a=1, type='dict'), True), 'type-param-2': (lambda: Box(type='zzz.unknown'), True),
+        'reserved-callable': (lambda: {'callable': 'max'}, False), 'reserved-class': (lambda: {'class': 'votelib.evaluate.core.Tie', 'x': 1}, False),
+        'reserved-type': (lambda: {'type': 'Fraction', 'arguments': [1, 2]}, False), 'reserved-type-dict': (lambda: {'type': 'dict', 'keys': [], 'values': []}, False),
+        'reserved-unknown': (lambda: {'a': 1, 'class': 'zzz.unknown'}, False), 'reserved-unicode': (lambda: {'callable': 'caf\xe9'}, False),
+    }
+
+
+UNREP_WRAPS = ['list', 'tuple', 'strdict', 'intdict', 'box', 'pair', 'evaluator', 'dictkey', 'frozenset', 'tuplekey']
+
+
+def unrep_build(kind, wraps):
+    import votelib.evaluate.core as core
+    mk, hashable = _unrep_kinds()[kind]
+    v = mk()
+    for w in wraps:
+        if w == 'list':
+            v = [Fraction(1, 3), v]
+        elif w == 'tuple':
+            v = (v, 'x')
+        elif w == 'strdict':
+            v = {'a': 1, 'b': v}
+        elif w == 'intdict':
+            v = {1: v, (2, 3): None}
+        elif w == 'box':
+            v = Box(a=Decimal('1.5'), b=v)
+        elif w == 'pair':
+            v = Pair(x=v)
+        elif w == 'evaluator':
+            v = core.PostConverted(Box(a=v), None)      # a votelib wrapper whose constructor stores its arguments as they are
+        elif w == 'dictkey':
+            v = {v: 1, 2: 3}
+        elif w == 'frozenset':
+            v = frozenset([v, 1])
+        elif w == 'tuplekey':
+            v = {(v, 1): 'x'}
+        else:
+            raise ValueError(w)
+    return v
+
+
+def unrep_cases(rng, count):
+    kinds = _unrep_kinds()
+    names = sorted(kinds)
+    for i in range(count):
+        kind = names[i % len(names)] if i < 2 * len(names) else rng.choice(names)
+        wraps = []
+        hashable = kinds[kind][1]
+        for _ in range(0 if i < len(names) else rng.randint(1, 3)):
+            w = rng.choice(UNREP_WRAPS)
+            if w in ('dictkey', 'frozenset', 'tuplekey') and not hashable:
+                w = 'list'
+            wraps.append(w)
+            hashable = hashable and w in ('tuple', 'frozenset', 'box', 'pair', 'evaluator')
+        yield dict(stream='unrepresentable', kind=kind, wraps=wraps)
+
+
+def unrep_check(ctx, case):
+    """the value must be refused with ValueError by persist.to_dict; returns a violation dict or None"""
+    import votelib.persist as P
+    ctx.evaluations += 1
+    ctx.dist['stream:unrepresentable'] += 1
+    try:
+        v = unrep_build(case['kind'], case['wraps'])
+    except Exception as exc:   # noqa
+        ctx.broken('harness', 'unrepresentable stream: %s under %s cannot be built: %r' % (case['kind'], case['wraps'], exc))
+        return None
+    r = common.call_impl(lambda: P.to_dict(v), 5)
+    if r[0] == 'err' and r[2].split(':')[0] == 'ValueError':
+        ctx.nontrivial.add(common.case_hash(case))
+        ctx.dist['unrepresentable:refused'] += 1
+        return None
+    if r[0] == 'err':
+        return dict(case, got=r[2][:300], why='saving a value that cannot be represented (%s) raises %s instead of ValueError' % (case['kind'], r[2][:120]))
+    saved = r[1]
+    back = common.call_impl(lambda: P.deserialize_value(json.loads(json.dumps(saved, default=repr))), 5)
+    return dict(case, got=repr(saved)[:400],
+                why='a value that cannot be represented (%s under %s) is saved without refusal; it reloads as %s'
+                    % (case['kind'], '/'.join(case['wraps']) or 'nothing', (repr(back[1]) if back[0] == 'ok' else back[2])[:200]))
+
+
+def unrep_stream(ctx, count):
+    bad = 0
+    n = 0
+    for case in unrep_cases(ctx.rng, count):
+        n += 1
+        v = unrep_check(ctx, case)
+        if v is not None:
+            bad += 1
+            report_impl(ctx, v, None)
+    ctx.streams['unrepresentable'] = dict(cases=n, deviations=bad, kinds=len(_unrep_kinds()))
 
 
 # ------------------------------------------------------------------------------------------------ json stream
@@ -757,6 +940,7 @@ class ClassGen:
         self.rng = rng
         self.classes = all_classes()
         self.bases = {}
+        self.unsaveable = 0
 
     ROLE_METHOD = {'Evaluator': 'evaluate', 'Selector': 'evaluate', 'SeatlessSelector': 'evaluate', 'Distributor': 'evaluate',
                    'SeatlessDistributor': 'evaluate', 'OpenListEvaluator': 'evaluate', 'Converter': 'convert', 'VoteSubsetter': 'subset',
@@ -812,7 +996,10 @@ class ClassGen:
         import votelib.component.quota as Q, votelib.component.divisor as D
         r = self.rng
         if 'quota' in pname:
-            return r.choice([Q.droop, Q.hare, Q.imperiali, Q.constant(37)])
+            f = r.choice([Q.droop, Q.hare, Q.imperiali, Q.constant(37)])
+            if isinstance(f, Q.constant):
+                self.unsaveable += 1         # a callable object without a name: the one part drawn here that cannot be saved
+            return f
         if 'divisor' in pname:
             return r.choice([D.d_hondt, D.sainte_lague, D.modified_first_coef(D.sainte_lague, Fraction(7, 5)), D.modified_first_coef(D.d_hondt)])
         if pname == 'coefficients':
@@ -1012,16 +1199,24 @@ def describe(kwargs):
         return repr(kwargs)[:600]
 
 
-def check_object(ctx, clsname, obj, kwargs, calls, stream='classes'):
-    """the declarative clause for one configured object; returns a violation dict or None (+ class tag)"""
+def check_object(ctx, clsname, obj, kwargs, calls, stream='classes', may_refuse=False):
+    """the declarative clause for one configured object; returns a violation dict or None (+ class tag).
+    may_refuse: the configuration contains a part that cannot be represented (a callable object without a name): saving must then be
+    refused with ValueError; a configuration built from representable parts only (numbers, named callables, nested evaluators, dict-keyed
+    parameters - the domain of the property) must be saved"""
     import votelib.persist as P
     case = dict(stream=stream, cls=clsname, args=describe(kwargs))
     try:
         d = P.to_dict(obj)
         text = json.dumps(d)
-    except Exception as exc:   # noqa   refused when saving: allowed by the property
-        ctx.dist['classes:refused-when-saving'] += 1
-        return None, None
+    except Exception as exc:   # noqa   refused when saving
+        if may_refuse and isinstance(exc, ValueError):
+            ctx.dist['classes:refused-when-saving'] += 1
+            return None, None
+        return dict(case, why=('a configuration built from representable parts is refused when saving' if isinstance(exc, ValueError) else
+                               'saving raises another exception than ValueError') + ': %s: %s' % (type(exc).__name__, str(exc)[:300])), 'save-fails'
+    if may_refuse:
+        ctx.dist['classes:unsaveable-part-not-reached'] += 1     # e.g. the part was replaced by a default inside the constructor
     try:
         y = P.from_dict(json.loads(text))
     except Exception as exc:   # noqa
@@ -1167,13 +1362,14 @@ def classes_stream(ctx, count_per_class):
     for name, cls in gen.classes.items():
         objs = []
         if gen.default_ok(cls):
-            objs.append((cls(), {}))
+            objs.append((cls(), {}, False))
         tries = 0
         while len(objs) < 1 + count_per_class and tries < count_per_class * 6:
             tries += 1
             try:
+                gen.unsaveable = 0
                 o, kw = gen.instance(cls, ctx.rng.randint(1, 4))
-                objs.append((o, kw))
+                objs.append((o, kw, gen.unsaveable > 0))
             except BaseException as exc:   # noqa
                 if isinstance(exc, (KeyboardInterrupt, SystemExit)):
                     raise
@@ -1181,13 +1377,13 @@ def classes_stream(ctx, count_per_class):
         if not objs:
             ctx.dist['classes:never-constructed'] += 1
             ctx.notes.append('classes stream: no instance of %s could be constructed' % name)
-        for o, kw in objs:
+        for o, kw, unsaveable in objs:
             n += 1
             ctx.evaluations += 1
             ctx.dist['stream:classes'] += 1
             if sig is not None:
                 signature_instance(ctx, sig, name, cls, o, kw)      # before any method of the object is called
-            v, tag = check_object(ctx, name, o, kw, calls)
+            v, tag = check_object(ctx, name, o, kw, calls, may_refuse=unsaveable)
             if kw:
                 ctx.nontrivial.add(common.case_hash(dict(cls=name, args=describe(kw))))
             if v is not None:
@@ -1198,7 +1394,7 @@ def classes_stream(ctx, count_per_class):
     signature_finish(ctx, sig)
 
 
-KNOWN_TAGS = {'closure': 'C19-closures', 'defaultdict': 'C19-rank-defaultdict', 'stv-hostile-name': 'C19-stv-name-chars', 'stv-empty-ranking': 'C19-stv-empty-ranking',
+KNOWN_TAGS = {'stv-hostile-name': 'C19-stv-name-chars', 'stv-empty-ranking': 'C19-stv-empty-ranking',
               'stv-decimal-exponent': 'C19-stv-decimal-exponent', 'blt-negative-weight': 'C19-blt-negative-weight'}
 
 
@@ -1659,7 +1855,7 @@ def replay_malformed(ctx, case):
 def replay_class(ctx, case):
     """corpus cases for the classes stream: {'stream':'classes','expr': python expression building the object}"""
     import votelib, votelib.vote, votelib.evaluate, votelib.evaluate.core, votelib.evaluate.proportional, votelib.evaluate.openlist
-    import votelib.component.divisor, votelib.component.quota, votelib.candidate, votelib.convert
+    import votelib.component.divisor, votelib.component.quota, votelib.candidate, votelib.convert, votelib.evaluate.cardinal
     obj = eval(case['expr'], dict(votelib=votelib, Fraction=Fraction, Decimal=Decimal))
     ctx.evaluations += 1
     v, tag = check_object(ctx, case['expr'], obj, {}, panel())
@@ -1730,6 +1926,10 @@ def dispatch_case(ctx, case, name='replay'):
             report_impl(ctx, v, tag)
     elif s == 'malformed':
         replay_malformed(ctx, case)
+    elif s == 'unrepresentable':
+        v = unrep_check(ctx, case)
+        if v is not None:
+            report_impl(ctx, v, None)
     elif s == 'classes':
         replay_class(ctx, case)
     elif s == 'signatures':
@@ -1744,6 +1944,7 @@ def explore(ctx, widen=1):
         dispatch_case(ctx, c, 'corpus:' + c.get('_file', ''))
     n = ctx.n
     run_cases(ctx, 'codec', 'codec', codec_cases(ctx.rng, n(4000, 40000) * widen))
+    unrep_stream(ctx, n(600, 6000) * widen)
     run_cases(ctx, 'json', 'json', json_cases(ctx.rng, n(2000, 20000) * widen))
     classes_stream(ctx, n(8, 60) * widen)
     run_cases(ctx, 'blt', 'blt', blt_cases(ctx.rng, n(2000, 20000) * widen))
